@@ -912,17 +912,26 @@ def worker_init():
 
 
 def worker(case):
+    if os.environ.get("VERIF_TEST_KILL") == str(case["seed"]) and not os.path.exists("/tmp/verif_killed_once"):
+        open("/tmp/verif_killed_once", "w").close()      # self-test of run_cases: this worker dies once
+        os._exit(9)
     try:
         return run_case(case)
     except Exception as e:
         return {"skip": f"harness: {type(e).__name__}: {e}\n{traceback.format_exc()[-600:]}"}
+    finally:
+        try:
+            import jax
+            jax.clear_caches()        # compiled programs of one case are never reused: keep the worker's memory flat
+        except Exception:
+            pass
 
 
 def run_cases(cases, procs=14):
-    import multiprocessing as mp
-    ctx = mp.get_context("spawn")
-    with ctx.Pool(procs, initializer=worker_init) as pool:
-        return pool.map(worker, cases, chunksize=4)
+    """the cases on the implementation, in worker processes (core.run_pool: recycled workers, survives a dead worker)"""
+    from . import core
+    return core.run_pool(worker, cases, procs=procs, initializer=worker_init,
+                         on_dead=lambda c: {"skip": "harness: the worker process died three times on this case (memory?)"})
 
 
 # ---------------------------------------------------------------------------
